@@ -311,6 +311,12 @@ func (x *Exec) modOfBlocks(blocks []*ssa.BasicBlock, depth int) *ModSet {
 				}
 			case *ssa.MakeClosure:
 				m.Ctr = true
+			case *ssa.Select:
+				for _, g := range []string{"SEL.idx", "SEL.last"} {
+					if x.isGhost(g) {
+						m.Ghosts[g] = true
+					}
+				}
 			case *ssa.Go:
 				for _, g := range []string{"SPAWN.n", "SPAWN.fn", "SPAWN.recv", "SPAWN.arg"} {
 					if x.isGhost(g) {
